@@ -228,6 +228,9 @@ func C09(tier rt.Tier) int {
 		runs = []cfg{
 			{name: "6keys-mem+commit", keys: []int{0, 1, 2, 3, 4, 5}, vals: []string{"a", "b"}, levels: []int{0, 2, 64}, gc: true, reload: true, rootOp: true, depth: 4, maxNoDup: 3},
 			{name: "3keys-deep", keys: []int{0, 1, 2}, vals: []string{"a", "b", "c"}, levels: []int{0, 1, 3}, gc: true, reload: true, rootOp: true, depth: 6, maxNoDup: 4},
+			// one and two keys, much deeper: long alternations of rewrite / commit / collect / reload
+			{name: "1key-very-deep", keys: []int{0}, vals: []string{"a", "b"}, levels: []int{0}, gc: true, reload: true, depth: 13, maxNoDup: 7},
+			{name: "2keys-very-deep", keys: []int{0, 4}, vals: []string{"a", "b"}, levels: []int{1}, gc: true, reload: true, depth: 10, maxNoDup: 6},
 			// operations that fail with a storage read error (collapsed nodes must be loaded) leave the trie as it was
 			{name: "3keys-read-faults", keys: []int{0, 1, 4}, vals: []string{"a", "b"}, levels: []int{0, 1}, reload: true, faults: true, depth: 5, maxNoDup: 4},
 			// the other exported mutators
@@ -240,6 +243,8 @@ func C09(tier rt.Tier) int {
 		runs = []cfg{
 			{name: "6keys-mem+commit", keys: []int{0, 1, 2, 3, 4, 5}, vals: []string{"a", "b"}, levels: []int{0, 1, 2, 3, 64}, gc: true, reload: true, rootOp: true, depth: 6, maxNoDup: 4},
 			{name: "3keys-deep", keys: []int{0, 1, 2}, vals: []string{"a", "b", "c"}, levels: []int{0, 1, 2, 3, 64}, gc: true, reload: true, rootOp: true, depth: 9, maxNoDup: 5},
+			{name: "1key-very-deep", keys: []int{0}, vals: []string{"a", "b"}, levels: []int{0, 1}, gc: true, reload: true, depth: 16, maxNoDup: 8},
+			{name: "2keys-very-deep", keys: []int{0, 4}, vals: []string{"a", "b"}, levels: []int{0, 1}, gc: true, reload: true, depth: 12, maxNoDup: 7},
 			{name: "4keys-read-faults", keys: []int{0, 1, 2, 4}, vals: []string{"a", "b"}, levels: []int{0, 1, 2}, reload: true, faults: true, depth: 7, maxNoDup: 5},
 			{name: "4keys-put-delete", keys: []int{0, 1, 2, 4}, vals: []string{"a", "b"}, levels: []int{0, 1, 64}, gc: true, reload: true, alt: true, depth: 7, maxNoDup: 5},
 			{name: "snapshot-4keys", keys: []int{0, 1, 2, 4}, vals: []string{"a", "b"}, levels: []int{0, 1, 64}, snap: []int{0, 1, 2, 64}, depth: 8, maxNoDup: 5},
@@ -250,6 +255,12 @@ func C09(tier rt.Tier) int {
 	}
 	if rt.Replay == nil || rt.Replay.Run == "width" {
 		wideCases(rep, tier, []int{0, 1, 2}, false)
+	}
+	if rt.Replay == nil || rt.Replay.Run == "scale" {
+		scaleC09(rep, 700)
+		if tier == rt.Thorough {
+			scaleC09(rep, 5000)
+		}
 	}
 	rep.Set("dedup", haveDump)
 	rep.Set("rule", "BFS over all histories of {Update(k,v,weight(v)), delete (in the put-delete runs through Put and Delete, whose reported released weight is judged), Commit(level)+batch.Commit for the listed collapse levels, DeleteNodes, reload from (root hash, weight), Root(), and in the snapshot runs: snapshot = New(CopyRoot(level)) of the committed trie, updates/deletes through the snapshot} over 32-byte keys sharing prefixes of 63/3/2/1/0 nibbles; after every operation on a throw-away replay: Weight() = sum of live weights, Root() = independent root, for EVERY block 1..W GetBlockProof returns the cumulative-weight owner and the proof verifies to (root, owner's value); delete of an absent key must return ErrNotFound; in the read-fault runs an update/delete whose first storage read fails must either report an error and leave the trie as it was or succeed completely; a snapshot is judged like the trie itself against the content it was taken with plus its own later writes; states merged on model + dumped trie structure (dirty/collapsed flags, GC sets) + storage keys")
